@@ -50,7 +50,7 @@ def gen_path(rng):
         q = rng.random()
         if q < .08:
             # a number literal, in both operand orders: not a string comparison, so not accepted
-            return rng.choice(["[@n=1]", "[1=@n]", "[2=@k]", "[@j=2]"])
+            return rng.choice(["[@n=1]", "[1=@n]", "[2=@k]", "[@j=2]", "[@xmlns='u']", "[@xmlns:p='u']", "['u'=@xmlns]"])
         if q < .5:
             return "[@%s=%s]" % (rng.choice(["k", "k", "j", "p:k"]), rng.choice(["'1'", "'1'", '"2"', "'x'"]))
         if q < .65:
@@ -103,7 +103,20 @@ def accepted(t):
                (b[0] == "attrval" and a[0] == "val" and isinstance(a[1], str))
     if len(t[1]) != 1:
         return False
+
     return all(s[1] == ("axis", "child") and s[2][0] == "name" and all(ok_pred(p) for p in s[3]) for s in t[1][0][2])
+
+
+def has_reserved(t):
+    """an attribute predicate names an attribute that cannot be created (`xmlns`, or in the xmlns namespace): for such an
+    expression ValueError is a legitimate refusal"""
+    def reserved(e):
+        if e[0] == "attrval":
+            return e[2] == "xmlns" or e[1] == "xmlns"
+        if e[0] == "op":
+            return reserved(e[2]) or reserved(e[3])
+        return False
+    return any(reserved(p) for pa in t[1] for s in pa[2] for p in s[3])
 
 
 def plain_to_tuple(p):
@@ -207,7 +220,7 @@ def witness_case(src, ctx_pos, expr, namespaces, amb="default"):
             bad.append("an exception (%s) left the tree changed" % out[1])
         if not acc and out[1] != "ValueError":
             bad.append("a not-accepted expression is not rejected with ValueError (%s)" % out[1])
-        if acc and out[1] == "ValueError":
+        if acc and out[1] == "ValueError" and not has_reserved(tup):
             bad.append("an accepted expression is rejected")
         if acc and out[0] == "crash":
             bad.append("an accepted expression raises %s" % out[1])
@@ -346,16 +359,19 @@ def run(ctx, args):
                 ctx.nontrivial_case((src, expr, tuple(pos), json.dumps(namespaces)))
             if dict(m_eval).get("", "") != dict(m_create).get("", ""):
                 classes.append("empty-namespaces-mapping")
+            if "xmlns" in expr and out == ("rejected", "ValueError") and after != before:
+                classes.append("reserved-attribute-name")
             if "undeclared-prefix" in classes and out == ("rejected", "XPathEvaluationError") and after != before:
                 classes.append("undeclared-prefix-after-creation")
             for b in bad:
                 ctx.fail(b, dict(small, classes=classes, outcome=out),
-                         None)
+                         classify if (b.startswith("an exception (ValueError) left the tree changed")
+                                      and "reserved-attribute-name" in classes) else None)
             ctx.sample(dict(small, outcome=out[0] + (":" + str(out[1]))))
             # ---- the model on the same case
             key = t0.coq()          # inlined: a preamble with one definition per case would be re-read by every file
-            terms.append("run_foc_vis %d%%N %s %s %s %s %s" % (AMBIENT[amb][0], key, xq.coq_nsmap([(k, v) for k, v in m_eval if k in ("", "p", "xml")]),
-                                                      xq.coq_nsmap([(k, v) for k, v in m_create if k in ("", "p", "xml")]),
+            terms.append("run_foc_vis %d%%N %s %s %s %s %s" % (AMBIENT[amb][0], key, xq.coq_nsmap([(k, v) for k, v in m_eval if k in ("", "p", "xml", "xmlns")]),
+                                                      xq.coq_nsmap([(k, v) for k, v in m_create if k in ("", "p", "xml", "xmlns")]),
                                                       xpath_ast.coq_ast(tup), xq.coq_pos(pos)))
             if out[0] == "ok":
                 want = [0, len(out[1])] + list(out[1]) + enc_node(after)
